@@ -117,6 +117,47 @@ fn judge_paired<F: Fl>(c: &Case, l: &mut Local) {
             }
         }
     }
+    // one state fed in segments through the three feeding styles in rotation and queried (same confidence) after
+    // every segment: each answer is the mean interval of the differences delivered so far, whatever was asked before
+    if let Some(&(kind, level)) = c.confs.first() {
+        let cf = conf(kind, level);
+        let mut st = Paired::<F>::default();
+        let segs = 3 + n % 3;
+        let rot = hash_f64s(&[n as f64, level]) as usize;
+        let mut done = 0usize;
+        for j in 0..segs {
+            let end = if j + 1 == segs { n } else { (n * (j + 1)) / segs };
+            match (j + rot) % 3 {
+                0 => {
+                    let _ = st.extend(&a[done..end].to_vec(), &b[done..end].to_vec());
+                }
+                1 => {
+                    let _ = st.extend_tuple(&tuples[done..end].to_vec());
+                }
+                _ => {
+                    for i in done..end {
+                        let _ = st.append_pair(a[i], b[i]);
+                    }
+                }
+            }
+            done = end;
+            let style = ["extend", "extend_tuple", "append_pair"][(j + rot) % 3];
+            let got = call(|| st.ci_mean(cf)).map(|i| F::obs(&i));
+            let dpre: Vec<F> = d[..done].to_vec();
+            let want = call(|| Arithmetic::<F>::ci(cf, &dpre)).map(|i| F::obs(&i));
+            l.eval();
+            l.count("paired state queried between feeding steps");
+            if !same(&got, &want) || st.sample_count() != done {
+                l.violation(
+                    format!("Paired(fed in segments, queried in between)|{}|differs-from-mean-CI-of-differences", F::TY),
+                    "a paired state fed in segments (extend / extend_tuple / append_pair in rotation) and queried after each segment does not answer with the arithmetic-mean interval of the differences delivered so far".to_string(),
+                    case(),
+                    json!({"n": n, "segment": j, "style": style, "pairs_delivered": done, "sample_count": st.sample_count(), "kind": kind.name(), "level": level, "observed": got.describe(), "Arithmetic::ci(differences so far)": want.describe()}),
+                );
+                break;
+            }
+        }
+    }
     if l.wants_sample(&format!("paired:{}", F::TY)) {
         let cf = conf(Kind::Two, 0.95);
         l.sample(&format!("paired:{}", F::TY), || json!({"a": c.a, "b": bspec, "n": n, "Paired::ci(two-sided 0.95)": call(|| Paired::<F>::ci(cf, &a, &b)).map(|i| F::obs(&i)).describe(), "Arithmetic::ci(differences)": call(|| Arithmetic::<F>::ci(cf, &d)).map(|i| F::obs(&i)).describe()}));
@@ -519,6 +560,7 @@ pub fn run(run: &Arc<Run>) {
     });
     let mut req: Vec<String> = vec![
         "paired style compared".into(),
+        "paired state queried between feeding steps".into(),
         "unpaired style compared".into(),
         "mirror judged".into(),
         "unequal lengths judged".into(),
